@@ -1,7 +1,7 @@
 #!/usr/bin/env python3
 """Process-level checks against the real binary (built from /repo with --cfg rce_verif):
 timed stdin scripts, forced schedules through the labelled schedule points, liveness and exit."""
-import os, random, subprocess, sys, threading, time, json, re
+import os, signal, random, subprocess, sys, threading, time, json, re
 
 SEEDS = [
     "rnbqkbnr/pppppppp/8/8/8/8/PPPPPPPP/RNBQKBNR w KQkq - 0 1",
@@ -289,6 +289,8 @@ SCHEDULES = [
     ("three-quick-rounds", {}, [(0, "go depth 1"), (250, "go depth 1"), (250, "go depth 1")], 3),
     ("go-refused-twice-while-searching", {}, [(0, "go infinite"), (60, "go depth 1"), (30, "go depth 1"), (30, "isready"), (30, "stop")], 1),
     ("go-refused-then-stop-then-go", {}, [(0, "go infinite"), (60, "go depth 1"), (30, "stop"), (150, "go depth 1")], 2),
+    ("ucinewgame-and-setoption-during-search", {}, [(0, "go infinite"), (50, "ucinewgame"), (20, "setoption name Hash value 1"), (30, "stop"), (150, "go depth 1")], 2),
+    ("ucinewgame-then-go-during-search", {}, [(0, "go infinite"), (50, "ucinewgame"), (30, "go depth 1"), (30, "stop")], 1),
 ]
 
 
@@ -375,7 +377,7 @@ def run_schedule(engine, fen, name, delays, script, expected, scale):
         if l.startswith("bestmove"):
             mv = l.split()[1] if len(l.split()) > 1 else ""
             # the position may have been replaced mid-search: legality is checked for the schedules that keep it
-            if not any("position" in ln for _, ln in script):
+            if not any(("position" in ln or "ucinewgame" in ln) for _, ln in script):
                 queries.append((fen, "", mv))
     idx = len(eng.lines())
     eng.send("isready")
@@ -528,7 +530,10 @@ def c15_extra(tier, seed, ctx):
         if len(samples) < 3:
             samples.append(info.get("s", ""))
     # a go that is refused (a search is running) must not wedge the command loop, however often it is repeated
-    for script in (["go infinite", "go depth 1", "go depth 1", "isready"], ["go", "go", "go", "stop", "isready"], ["go infinite", "go nodes 5", "position startpos", "go movetime 10", "isready"]):
+    # … nor must any other command that arrives while a search is running (options, new game, identification, junk)
+    for script in (["go infinite", "go depth 1", "go depth 1", "isready"], ["go", "go", "go", "stop", "isready"], ["go infinite", "go nodes 5", "position startpos", "go movetime 10", "isready"],
+                   ["go infinite", "setoption name Hash value 1", "isready"], ["go infinite", "setoption name Threads value 2", "setoption name Move Overhead value 10", "ucinewgame", "isready"],
+                   ["go infinite", "uci", "setoption name Nonsense value 3", "setoption", "position startpos moves e2e4", "isready"], ["go", "stop", "setoption name Hash value 1", "isready"]):
         def refused(scale, script=script):
             v = []
             eng = Engine(E)
@@ -611,14 +616,25 @@ def canon(lines):
     return out
 
 
-def fixed_depth_run(engine, fen, depth, timeout=30.0):
-    eng = Engine(engine)
+TIME_LIMIT_FIELDS = ("movetime", "wtime", "btime", "winc", "binc")
+
+
+def time_limited(limits_line):
+    """the time limits in a `limits ...` trace line (hook `trace_limits`): {} = the search runs under no time limit"""
+    kv = dict(t.split("=", 1) for t in limits_line.split()[1:] if "=" in t)
+    return {k: kv[k] for k in TIME_LIMIT_FIELDS if kv.get(k, "-") != "-"}
+
+
+def fixed_depth_run(engine, fen, depth, timeout=30.0, limits_seen=None):
+    eng = Engine(engine, env={"RCE_VERIF_TRACE": "1"})
     eng.send(f"position fen {fen}")
     eng.send(f"go depth {depth}")
     i = eng.wait_for(lambda l: l.startswith("bestmove"), timeout)
     res = canon([l for _, l in eng.lines()])
     eng.send("quit")
     eng.close()
+    if limits_seen is not None:
+        limits_seen += [l for _, l in eng.errlines() if l.startswith("limits ")]
     return res if i is not None else None
 
 
@@ -628,8 +644,9 @@ def c16_extra(tier, seed, ctx):
     fens = SEEDS[:4] if tier == "quick" else SEEDS
     depth = 4 if tier == "quick" else 5
     burners = []
+    limits_seen = []
     for fen in fens:
-        a = fixed_depth_run(ctx["engine"], fen, depth)
+        a = fixed_depth_run(ctx["engine"], fen, depth, limits_seen=limits_seen)
         b = fixed_depth_run(ctx["engine"], fen, depth)
         # under load
         burners = [subprocess.Popen([sys.executable, "-c", "while True: pass"]) for _ in range(16)]
@@ -647,18 +664,46 @@ def c16_extra(tier, seed, ctx):
             violations.append(viol("C16", "process-runs-differ", f"fen=[{fen}] depth {depth} a={a[-2:]} b={b[-2:]} loaded={c[-2:]}"))
         if len(samples) < 2 and a:
             samples.append(f"fen=[{fen}] depth {depth}: {a[-2:]} (x2 processes, x1 under 16-way load)")
+    # the theorem behind C16 (`search_clock_indep`) needs NoTimeLimit: observe it on the searches the binary really runs
+    for l in limits_seen:
+        if time_limited(l):
+            violations.append(viol("C16", "fixed-depth-search-has-a-time-limit", f"go depth {depth} runs under [{l}]: the result then depends on the wall clock"))
+            break
     bench = {}
-    if tier == "thorough":
-        totals = []
-        for k in range(2):
-            r = subprocess.run([ctx["engine"], "bench"], capture_output=True, text=True, timeout=600)
-            m = re.search(r"^(\d+) nodes", r.stdout, re.M)
-            totals.append(int(m.group(1)) if m else None)
-            evals += 1
-        bench = {"bench_node_totals": totals}
-        if None in totals or totals[0] != totals[1]:
-            violations.append(viol("C16", "bench-totals-differ", f"{totals}"))
-        samples.append(f"bench node totals {totals}")
+    # the bench subcommand: every search must run under no time limit (else a stalled process counts fewer nodes), totals equal
+    totals, bench_limits = [], []
+    for k in range(2 if tier == "thorough" else 1):
+        r = subprocess.run([ctx["engine"], "bench"], capture_output=True, text=True, timeout=900, env=dict(os.environ, RCE_VERIF_TRACE="1"))
+        m = re.search(r"^(\d+) nodes", r.stdout, re.M)
+        totals.append(int(m.group(1)) if m else None)
+        bench_limits = [l for l in r.stderr.splitlines() if l.startswith("limits ")]
+        evals += 1
+    bench = {"bench_node_totals": totals, "bench_searches_traced": len(bench_limits)}
+    if None in totals or len(set(totals)) != 1:
+        violations.append(viol("C16", "bench-totals-differ", f"{totals}"))
+    if not bench_limits:
+        violations.append(viol("C16", "bench-not-traced", "no `limits` line on stderr: cannot observe the limits bench runs under"))
+    bad = [l for l in bench_limits if time_limited(l)]
+    if bad:
+        # exhibit it when the limit is short enough: stall one run for longer than the limit and compare the node totals
+        tl = time_limited(bad[0])
+        detail = f"bench runs its searches under [{bad[0]}]"
+        try:
+            ms = int(tl.get("movetime", "0"))
+        except ValueError:
+            ms = 0
+        if 0 < ms <= 120000:
+            p = subprocess.Popen([ctx["engine"], "bench"], stdout=subprocess.PIPE, stderr=subprocess.DEVNULL, text=True)
+            time.sleep(1.0)
+            p.send_signal(signal.SIGSTOP)
+            time.sleep(ms / 1000.0 + 2.0)
+            p.send_signal(signal.SIGCONT)
+            out, _ = p.communicate(timeout=900)
+            m = re.search(r"^(\d+) nodes", out, re.M)
+            stalled = int(m.group(1)) if m else None
+            detail += f"; a run stopped for {ms / 1000.0 + 2.0:.0f} s reports {stalled} nodes, an undisturbed one {totals[0]}"
+        violations.append(viol("C16", "bench-search-has-a-time-limit", detail))
+    samples.append(f"bench node totals {totals}, {len(bench_limits)} searches traced, none time-limited" if not bad else f"bench: {bad[0]}")
     return dict({"violations": violations, "evaluations": evals, "distinct_nontrivial": max(2, len(distinct)), "samples": samples, "ok": not violations}, **bench)
 
 
